@@ -59,6 +59,17 @@ chk("C13",
     "definition (real strings.Split/TrimSpace), on all ASCII operands up to a length bound (thorough: one multi-byte rune through the real unicode tables).",
     SMT + "; implementation vs. definitional reference")
 
+chk("C14",
+    "Bounded symbolic execution of the text encodings of HostPort (round trip), netutil.Prefix (differential vs netip.ParsePrefix/ParseAddr) and urlutil.URL "
+    "(MarshalText is String(), UnmarshalText is url.Parse, round trip of String()) on symbolic texts.",
+    SMT + "; round trips and differential comparison with the real std parsers",
+    "Sub-claims not covered: timeutil.Duration and the JSON encoding of URL (see outside_bound in the evidence); one known finding (URLs with empty text form).")
+
+chk("C16",
+    "Two-run bounded symbolic execution of RedactUserinfo: two URLs sharing every component and differing only in symbolic credentials must redact to field-wise equal URLs "
+    "with equal real URL.String(); inputs untouched; RedactUserinfoInURLError changes only a top-level *url.Error's URL.",
+    SMT + "; two-run (non-interference) harness with the real URL.String")
+
 _pending = "check not built yet in this session; see DESIGN.md for the plan"
 for pid in ["C01","C02","C03","C04","C05","C07","C08","C09","C10","C11","C12","C13","C14","C15","C16","C17","C18"]:
     if pid not in CHECKS:
